@@ -145,6 +145,8 @@ def releases_case(ctx, case):
     ctx.nt('releases')
 
 
+membership_case = P4.reassigned(membership_case, 'release')
+packet_case = P4.reassigned(packet_case, 'release')
 COMPONENTS = {'membership': membership_case, 'packet': packet_case,
               'releases': releases_case}
 
